@@ -14,14 +14,21 @@ def main(argv=None):
     env.load_pygom()
     quick = run.tier == "quick"
     seeds = ["DRAIN", "CAPPED", "RANGE", "HYBRID", "CAPPEDBIG"] if quick else ["DRAIN", "CAPPED", "RANGE", "HYBRID", "CAPPEDBIG", "BD", "SIR", "ONE"]
-    dbound = 1 if quick else 2
+    dbound = 1
     defs, ngen = fam.gather_defs(seeds, dbound)
     seed_defs, _ = fam.gather_defs(seeds, 0)
+    # quick: deviation bound 1 within one edit of five seeds, 2 on the seeds.  thorough: bound 1 within one edit of eight
+    # seeds (all initial states and horizons), bound 2 within one edit of the five quick seeds, bound 3 on the seeds
     cfgs = fam.l2_configs(defs, run.tier)
     bound = 1 if quick else 2
     extra = fam.l2_configs(seed_defs, run.tier, modes=fam.MODES[:3], all_x0=True)
     jobs = [(c, 2 if quick else 3, 20000 if quick else 200000, "c11") for c in extra]
-    jobs += [(c, bound, 6000 if quick else 60000, "c11") for c in cfgs]
+    jobs += [(c, 1, 6000 if quick else 20000, "c11") for c in cfgs]
+    if not quick:
+        qdefs, _ = fam.gather_defs(["DRAIN", "CAPPED", "RANGE", "HYBRID", "CAPPEDBIG"], 1)
+        c2 = fam.l2_configs(qdefs, "quick")
+        jobs += [(c, 2, 60000, "c11") for c in c2]
+        cfgs = cfgs + c2
     cfgs = extra + cfgs
     res = pool.pmap(stoch.explore_config, jobs, chunksize=1)
     ex, steps, capped, nout = fam.summarize_l2(run, res, cfgs)
